@@ -511,6 +511,9 @@ func runC11(p *Program, r *Result) {
 	// ---- R11.6
 	r.Rule("R11.6", "the plugin recipient's label set is the plugin's labels arguments; a repeat is an error", 2)
 	checkPluginLabels(p, r)
+	// ---- R11.8
+	r.Rule("R11.8", "every plugin recipient announces the labels extension before it listens (phase 1 of the recipient machine = R16.1): a plugin that is not told about labels declares none", 1)
+	checkRecipientPhase1(p, r)
 	// ---- R11.7
 	r.Rule("R11.7", "a plugin recipient that fails (error message, no stanza, broken conversation) makes WrapWithLabels fail, so that Encrypt refuses before writing (= R16.2, recipient side)", 5)
 	checkPluginRecipientArms(p, r)
